@@ -10,6 +10,7 @@ numpy on raw arrays with volume arrays from closed forms.
 """
 import functools
 import itertools
+import json
 import traceback
 
 import numpy as np
@@ -174,7 +175,8 @@ def cases(tier, seed):
         for dts in dtsets[len(keys)]:
             dtd = dict(zip(keys, dts))
             for op in UNOPS:
-                add(fam="mf_unop", mdom=ms, dts=dtd, op=op)
+                if op != "pos":          # MultiField defines no unary plus; not demanded by the property
+                    add(fam="mf_unop", mdom=ms, dts=dtd, op=op)
             for o in ORDS:
                 add(fam="mf_norm", mdom=ms, dts=dtd, ord=o)
             add(fam="mf_red", mdom=ms, dts=dtd, op="s_sum")
@@ -213,9 +215,15 @@ def cases(tier, seed):
                 add(fam="mf_addsub", k1=list(s1), k2=list(s2), neg=neg, pool=pool, clash=False)
     for neg in ("False", "True", "dict"):
         add(fam="mf_addsub", k1=["a", "b"], k2=["b", "c"], neg=neg, pool=pool, clash=True)
-    idx = {id(c): i for i, c in enumerate(cs)}
-    cs.sort(key=lambda c: (complexity(c), idx[id(c)]))
-    return cs
+    seen, uniq = set(), []
+    for c in cs:
+        k = json.dumps(c, sort_keys=True)
+        if k not in seen:
+            seen.add(k)
+            uniq.append(c)
+    idx = {id(c): i for i, c in enumerate(uniq)}
+    uniq.sort(key=lambda c: (complexity(c), idx[id(c)]))
+    return uniq
 
 
 def complexity(c):
@@ -299,7 +307,10 @@ def compare(got, exp, scale, rel=1e-11):
     if g.shape != e.shape:
         return "shape %s, expected %s" % (g.shape, e.shape)
     kg, ke = kind_of(g), kind_of(e)
-    if (kg == 3) != (ke == 3) or (kg == 0) != (ke == 0) or (kg == 1 and ke == 2) or kg == 9:
+    # dtype is compared by kind only: bool-ness must agree and a real expectation must not come back complex;
+    # real-for-complex (ducc's vdot returns a float when the imaginary part is exactly 0) and int/float
+    # differences are decided by VALUE below
+    if (kg == 0) != (ke == 0) or (kg == 3 and ke != 3) or kg == 9:
         return "dtype %s, expected kind of %s" % (g.dtype, e.dtype)
     if e.size == 0:
         return None
@@ -399,6 +410,15 @@ def run_geom(c):
     return ok(nontrivial=len(Rd.norm_spaces(sp)) > 0, outcome="geom|%s|%s" % (volclass(Rd, sp), spclass(Rd, c["spaces"])))
 
 
+def _skip_unstructured(okv, r):
+    # a volume operation whose `spaces` contain an UnstructuredDomain is outside the premise (no volume defined)
+    if okv:
+        return skip("volume operation over an UnstructuredDomain returned a value; nothing to compare with")
+    if isinstance(r, AttributeError):
+        return skip("volume operation over an UnstructuredDomain raises AttributeError (no volume defined)")
+    return skip("volume operation over an UnstructuredDomain raises %s" % type(r).__name__)
+
+
 def _value_arrays(Rd, dt, seed, slot=0):
     yield "generic", R.fill(Rd.shape, dt, seed, slot)
     for i, e in enumerate(R.onehots(Rd.shape, dt)):
@@ -424,13 +444,11 @@ def run_contr(c):
         else:
             okv, r = call(lambda: f.weight(power, sp))
         if needs_vol and vc == "unstructured":
-            if not okv and isinstance(r, AttributeError):
-                return skip("volume operation over an UnstructuredDomain raises AttributeError (no volume defined)")
-            if okv:
-                return skip("volume operation over an UnstructuredDomain returned a value; nothing to compare with")
+            return _skip_unstructured(okv, r)
         if not okv:
             return bad("%s(spaces=%s) on %s dtype %s raised %s: %s" % (label, sp, list(Rd.names), dt, type(r).__name__, r),
-                       finding_key=exc_key(r, dt=dt, vol=vc), detail=exc_detail(r))
+                       finding_key=exc_key(r, dt=dt, vol="has-nonuniform" if vc in ("mixed", "nonuniform") else vc),
+                       detail=exc_detail(r))
         exp, scale = R.contract(op, arr, Rd, sp, power=power)
         expect_dom = Rd.names if op == "weight" else Rd.remaining(sp)
         got, msg = field_result(r, expect_dom, label)
@@ -512,15 +530,13 @@ def run_sred(c):
             needs_vol = label[2:] in VOLOPS
             okv, r = call(lambda: getattr(f, label)())
             if needs_vol and vc == "unstructured":
-                if not okv and isinstance(r, AttributeError):
-                    return skip("volume operation over an UnstructuredDomain raises AttributeError (no volume defined)")
-                if okv:
-                    return skip("volume operation over an UnstructuredDomain returned a value; nothing to compare with")
+                return _skip_unstructured(okv, r)
             if okv:
                 exp, scale = R.contract(label[2:], arr, Rd, None)
         if not okv:
             return bad("%s on %s dtype %s raised %s: %s" % (label, list(Rd.names), dt, type(r).__name__, r),
-                       finding_key=exc_key(r, dt=dt, vol=vc if needs_vol else "-"), detail=exc_detail(r))
+                       finding_key=exc_key(r, dt=dt, vol=("has-nonuniform" if vc in ("mixed", "nonuniform") else vc) if needs_vol else "-"),
+                       detail=exc_detail(r))
         msg = None if np.isscalar(r) else "%s returned %s, not a scalar" % (label, type(r).__name__)
         msg = msg or compare(r, exp, scale)
         if msg:
